@@ -575,7 +575,7 @@ _ALIASING_CALLS = ('asarray', 'asanyarray', 'ascontiguousarray', 'asfortranarray
                    'ravel', 'reshape', 'view', 'transpose', 'real', 'imag', 'conj', 'conjugate')
 
 
-def no_inplace_on_args(fn, array_params=ARRAY_PARAMS):
+def no_inplace_on_args(fn, array_params=ARRAY_PARAMS, cache_reads=False):
     """False iff `fn` applies an in-place operation (augmented assignment, item / slice assignment, `out=` keyword, a
     mutating method) to one of its array-like parameters or to a name that may alias one (`x = np.asarray(param)`,
     `x = param`, `x = param.T`, `x = param[...]`, `np.conj(param)` of a real array ...); such a function corrupts the array
@@ -583,7 +583,19 @@ def no_inplace_on_args(fn, array_params=ARRAY_PARAMS):
     params = {a.arg for a in fn.args.args + fn.args.kwonlyargs if a.arg in array_params}
     alias = set(params)
 
+    def is_cache_read(e):
+        # `self.<cache>[key]` (also behind .get(key)): an object owned by the executor and shared by every later call
+        if not cache_reads:
+            return False
+        if isinstance(e, ast.Subscript) and isinstance(e.value, ast.Attribute) and isinstance(e.value.value, ast.Name) \
+                and e.value.value.id == 'self':
+            return True
+        return isinstance(e, ast.Call) and isinstance(e.func, ast.Attribute) and e.func.attr in ('get', 'setdefault') \
+            and isinstance(e.func.value, ast.Attribute) and isinstance(e.func.value.value, ast.Name) and e.func.value.value.id == 'self'
+
     def may_alias(e):
+        if is_cache_read(e):
+            return True
         if isinstance(e, ast.Name):
             return e.id in alias
         if isinstance(e, ast.Attribute):
@@ -620,6 +632,14 @@ def no_inplace_on_args(fn, array_params=ARRAY_PARAMS):
                         alias.add(t.id)
                     else:
                         alias.discard(t.id)
+                elif isinstance(t, (ast.Tuple, ast.List)) and all(isinstance(x, ast.Name) for x in t.elts):
+                    # `a, b = self.A[key], self.B[key]` element-wise; `a, b, c = self.cache[key]` all of them
+                    if isinstance(st.value, (ast.Tuple, ast.List)) and len(st.value.elts) == len(t.elts):
+                        for x, v in zip(t.elts, st.value.elts):
+                            (alias.add if may_alias(v) else alias.discard)(x.id)
+                    else:
+                        for x in t.elts:
+                            (alias.add if may_alias(st.value) else alias.discard)(x.id)
         elif isinstance(st, ast.Expr) and isinstance(st.value, ast.Call):
             c = st.value
             if any(k.arg == 'out' and may_alias(k.value) for k in c.keywords):
